@@ -50,6 +50,7 @@ def registry():
         from . import spmgr_py
         spmgr_py.register(_REG, PROPERTIES)
         spmgr_py.register2(_REG, PROPERTIES)
+        spmgr_py.register3(_REG, PROPERTIES)
         from . import serialize_py
         serialize_py.register(_REG, PROPERTIES)
         from . import registry_py
